@@ -169,6 +169,8 @@ def trace_ops(rng, n):
     for i in range(n):
         big = rng.random() < 0.15
         ns = [rng.choice([1, 2, 2, 3, 3, 4] + ([5, 6] if big else [])) for _ in range(3)]
+        while ns[0] * ns[1] * ns[2] > 48:        # the real MemorySpace needs 27 buffers per subgrid (incl. copies)
+            ns[rng.randrange(3)] = rng.choice([1, 2])
         m = [rng.choice([1, 2, 2, 3, 4]) for _ in range(3)]
         per = [1 if rng.random() < 0.35 else 0 for _ in range(3)]
         boxkind = rng.choice([0, 0, 1])
@@ -210,7 +212,8 @@ def impl_only(ctx, stream, harness, ops, group_start=None):
 
 def run_trace(ctx, harness, ops):
     st = ctx.cov["correspondence_streams"].setdefault("trace", {"lines": 0, "mismatches": 0, "oracle_failures": 0})
-    tot = {"packets": 0, "absorbed": 0, "escaped": 0, "handovers": 0, "grids_with_copies": 0, "cells": 0}
+    tot = {"packets": 0, "absorbed": 0, "escaped": 0, "handovers": 0, "grids_with_copies": 0, "cells": 0,
+           "tasks": 0, "premature": 0, "fullbuffers": 0}
     mx = {"maxrel": 0.0, "maxpos": 0.0, "maxtau": 0.0}
     hist = [0] * 27
     for c0 in range(0, len(ops), 200):
@@ -234,7 +237,7 @@ def run_trace(ctx, harness, ops):
             if not a.startswith("trace ") or "dirs" not in kv:
                 ctx.broken_obligation("tracing harness answered %r to %r" % (a[:100], op))
                 continue
-            for k in ("packets", "absorbed", "escaped", "handovers", "cells"):
+            for k in ("packets", "absorbed", "escaped", "handovers", "cells", "tasks", "premature", "fullbuffers"):
                 tot[k] += int(kv[k])
             tot["grids_with_copies"] += 1 if int(kv["copies"]) > 0 else 0
             for k in mx:
@@ -335,8 +338,13 @@ def run(ctx):
         "and random indices, update_photon_position on random positions (bit patterns); layouts: %s + %d random larger layouts (up to 12 per "
         "axis), per layout the 27-entry neighbour table of every subgrid, grid positions, get_neighbours, and 2-3 copy-level "
         "assignments 0..3 (create_copies then update_copies: _copies, _originals, rows of all copies, get_copies ranges, fold visits); "
-        "trace: seeded packets (generic, axis-aligned, exact lattice diagonals through cell/subgrid edges and corners) through real "
-        "subgrids split 1..6 per axis with copies vs the same grid as one block.  distinct = different op text of a layout / a traced "
+        "trace: per grid a two-step history — step 1: seeded packets (generic, axis-aligned, exact lattice diagonals through cell/subgrid "
+        "edges and corners, in rounds so that MemorySpace slots are recycled, then a 500-packet beam through one face that overflows a "
+        "hand-over buffer) traverse the split grid (1..6 subgrids per axis, copies) through the REAL PhotonTraversalTaskContext::execute / "
+        "PhotonTraversalThreadContext / MemorySpace::add_photons / TaskQueue / PrematureLaunchTaskContext, driven from one thread as the "
+        "photon loop does, fold with update_original_counters, vs the same grid as one block; then density, neutral fractions and "
+        "temperature of the originals change, update_copy_properties (oracle: every copy equals its original in all fields a traversal "
+        "reads); step 2: a second batch through the updated copies, fold, compare.  distinct = different op text of a layout / a traced "
         "grid; non-trivial = layout with periodic wrap or copies, traced grid with at least one hand-over"
         % ("ALL layouts 1..4 per axis x 8 periodicities" if ctx.thorough else "%d seeded layouts <= 4x4x4 incl. 1 and 2 subgrids per periodic axis" % len(chosen),
            ctx.budget(4, 60)))
@@ -385,7 +393,7 @@ def run(ctx):
         impl_only(ctx, "layout", h, l_ops, group_start=lambda op: op.startswith("new"))
 
     # ---- stream 3: split-vs-unsplit tracing through real subgrids (implementation-only oracle)
-    tr = corpus_trace + trace_ops(rng, ctx.budget(250, 30000))
+    tr = corpus_trace + trace_ops(rng, ctx.budget(250, 8000))
     hist = run_trace(ctx, h, tr)
     if ctx.thorough:
         missing = [DIRNAMES[i] for i in range(1, 27) if not hist[i]]
@@ -431,6 +439,8 @@ MANIFEST = dict(
          "check; Props/C03 proves by decide that C02's and C03's generated tables agree).  NOT proved: termination itself (a periodic box of zero "
          "opacity never ends), the converse termination transfer (undivided over => split over); copies are not part of the march theorem (their wiring/fold "
          "theorems + the tracing stream with copies cover them); floating-point round-off (validated: seeded packets through real split "
-         "grids with copies vs a single block, per-cell estimators rel 1e-10, same absorption/escape decisions); load-balancing statistics.",
+         "grids with copies — traversed by the real PhotonTraversalTaskContext/MemorySpace/TaskQueue/PrematureLaunch code with buffer "
+         "overflows and recycled slots, over a two-step history with update_copy_properties in between — vs a single block, per-cell "
+         "estimators rel 1e-10, same absorption/escape decisions, no packet lost, no buffer left behind); load-balancing statistics.",
     technique="translator by exhaustive evaluation + Lean 4 proofs (decide over generated tables; div/mod lemmas + omega for all layouts; "
               "induction over the level list for copies and fold) + differential table dumps + split-vs-unsplit tracing oracle")
